@@ -443,6 +443,9 @@ def run_check(mod, tier, seed, replay=None):
         path = write_replay(prop, name, payload)
         suffix = "" if (k == "spec" or getattr(mod, "MODEL_IS_SPEC", True) and small["wf"] == "1") else " no-failing-input-found"
         violations.append("VIOLATION property=%s replay=%s%s" % (prop, path, suffix))
+    if any(not v.endswith("no-failing-input-found") for v in violations):
+        # a concrete failing input was found: correspondence breaks without one are subsumed by it
+        violations = [v for v in violations if not v.endswith("no-failing-input-found")]
     if broken_obligations:
         concrete = [v for v in violations if not v.endswith("no-failing-input-found")]
         if not concrete:
